@@ -17,6 +17,8 @@
 (*            holds a reference on the pool).  delegate_helper: COPY *arg, run the task, running--.                           *)
 (*            After the loop: wait running == 0 (yielding), delete the thread pool (waits for its references), deregister,    *)
 (*            photon::fini, OS thread ends.  External workers (join_current_vcpu_into_workpool) only deregister.              *)
+(*            (vcpu_fini itself waits for every thread still alive on the vCPU; the model does not use that second net: DExit    *)
+(*            is immediate, so DestructorWaits rests on the running_tasks wait alone - as it must for external workers.)        *)
 (*   destructor   n = #registered workers; n stop markers; join the owned OS threads; wait until no worker is registered;     *)
 (*            destroy the ring.  It is called after every submission has returned (the API's contract), i.e. while tasks may   *)
 (*            still be queued or running.                                                                                     *)
@@ -49,7 +51,7 @@ Tasks == DOMAIN cf.ops
 OpOf(t) == cf.ops[t]
 IsCall(t) == cf.ops[t].op = "call"
 
-Init == /\ cf \in Cfgs /\ TLCSet(2, {}) /\ TLCSet(3, {})
+Init == /\ cf \in Cfgs /\ TLCSet(2, {}) /\ TLCSet(3, {})          \* registers 2, 3: witness / reachability records (see the end)
         /\ ring = <<>> /\ ringAlive = TRUE /\ vcpus = Workers
         /\ spc = [s \in Subs |-> [i |-> 1, ph |-> "enq"]]
         /\ aw = [t \in Tasks |-> 0] /\ returned = [t \in Tasks |-> FALSE] /\ accepted = {}
